@@ -149,6 +149,8 @@ def search(run, info):
     tu = [[("u.st", rules_corr.gen_type_unit(rng))] for _ in range(500 if run.tier == "quick" else 5000)]
     tu_n, tu_bad = rules_corr.check_types(run, tu, info, "aimed")
     ty_n += tu_n
+    # the resolution of bare identifiers in expressions (xform_resolve_late_bound_expr_kind) against its Coq model
+    ek_n, ek_bad = rules_corr.check_exprkind(run, sc_sets[:: (2 if run.tier == "quick" else 1)] + aimed[:: (3 if run.tier == "quick" else 1)], info, "c02")
     # correspondence of the proved rule models with the implementation
     mcases = []
     mlines = []
@@ -205,6 +207,7 @@ def search(run, info):
         "scope_walks_compared_with_model": sc_n,
         "rule_fact_streams_compared_with_model": rl_n,
         "type_fact_streams_compared_with_model": ty_n,
+        "expression_event_streams_compared_with_model": ek_n,
         "exhaustive": False}}
 
 
